@@ -34,7 +34,9 @@ SIZE = {"C12": 2000, "C11": 1000, "C10": 750, "C17": 400}
 # cases appended behind the first SIZE ones (so that those stay as recorded): constellations the first generator never builds -
 # a header column shared by two signals (`IO_out` is the expected column of the bidirectional IO *and* of an output or a declared
 # virtual signal that is itself called IO_out) with different widths; an input the header omits in front of listed ones
-EXTRA = {"C07": 80, "C06": 80, "C03": 60, "C14": 40, "C02": 40, "C05": 40}
+EXTRA = {"C07": 80, "C06": 80, "C03": 60, "C14": 40, "C02": 40, "C05": 40, "C11": 300, "C13": 150, "C10": 40}
+# C11 extra cases: undamaged signal lists, but a `C` may stand in ANY column (an output's, a bidirectional signal's `_out`
+# column, a virtual signal's): the recorded verdict says which of these bind
 
 BINOPS = ["+", "-", "*", "/", "%", "&", "|", "^", "<<", ">>", "=", "!=", "<", ">", "<=", ">="]
 VARS = ["a", "b", "c", "i", "j", "k", "n", "x", "y"]
@@ -42,9 +44,10 @@ LITS = [0, 1, 2, 3, 5, 7, 8, 15, 16, 255, 256, 1000, 65535, 4294967296, 92233720
 
 
 class Gen:
-    def __init__(self, rnd, focus, exotic=False):
+    def __init__(self, rnd, focus, exotic=False, c_anywhere=False):
         self.r, self.focus = rnd, focus
         self.exotic = exotic
+        self.c_anywhere = c_anywhere
         self.lines = []
         self.rows_budget = 24
         self.shadow = []
@@ -131,8 +134,9 @@ class Gen:
                 skip = k - 1
                 continue
             if kind == "in":
-                xprob = 0.35 if self.focus in ("C05", "C02") else 0.08
-                cprob = 0.3 if self.focus in ("C05", "C02") else 0.06
+                clocky = self.focus in ("C05", "C02") or (self.exotic and self.focus == "C13")
+                xprob = 0.35 if clocky else 0.08
+                cprob = 0.3 if clocky else 0.06
                 if c < xprob and nx < 3:
                     ent.append("X"); nx += 1
                 elif c < xprob + cprob and nc < 2:
@@ -144,7 +148,9 @@ class Gen:
                 else:
                     ent.append("(" + self.expr(scope, 2, outs) + ")")
             else:
-                if c < 0.3:
+                if self.c_anywhere and c < 0.07:
+                    ent.append("C")
+                elif c < 0.3:
                     ent.append("X")
                 elif c < 0.36:
                     ent.append("Z")
@@ -274,7 +280,11 @@ class Gen:
         out.append("driver value " + val)
         if self.p(0.3):
             out.append("driver layout rev")
-        if f == "C13":
+        if f == "C13" and self.exotic:
+            # several failing calls (two in a row, or everything from some call on) around clocked rows
+            n0 = r.randrange(1, 7)
+            out.append(r.choice([f"driver failat {n0} {n0 + 1}", f"driver failfrom {n0}", f"driver failat {n0} {n0 + 2}", f"driver failat {n0} {n0 + 1} {n0 + 2}"]))
+        elif f == "C13":
             c = r.random()
             if c < 0.5:
                 out.append(f"driver deviate {r.choice(['swap', 'drop', 'dup', 'dupfirst'])} {r.randrange(1, 6)}")
@@ -460,12 +470,32 @@ class Draws:
         return "signal in A 8 0\nmaxrows 400\nprogram\n" + "\n".join(prog) + "\n", self.nrows
 
 
+def many_x(rnd):
+    """C10: a row with very many don't-care inputs (2^k rows, produced lazily): the first few rows must come without a panic"""
+    n = rnd.choice([20, 31, 32, 33, 57, 58, 60, 63, 64, 65, 70])
+    nc = rnd.choice([0, 0, 1])
+    out = [f"signal in I{i} 1 0" for i in range(n)] + ["signal in CLK 1 0", "signal out Y 4", "driver value idx", "maxrows 7", "continue"]
+    if rnd.random() < 0.5:
+        out.append("static")
+    hdr = " ".join(f"I{i}" for i in range(n)) + " CLK Y"
+    row = " ".join(["X"] * n) + (" C" if nc else " 0") + " X"
+    pre = rnd.choice(["", "let a = 1;\n", "loop(i,2)\n"])
+    post = "end loop\n" if pre.startswith("loop") else ""
+    return "\n".join(out) + "\nprogram\n" + hdr + "\n" + pre + row + "\n" + post
+
+
 def generate(focus, n=None):
     base = SIZE.get(focus, PER_FOCUS)
     n = n or base + EXTRA.get(focus, 0)
     cases = []
     for k in range(n):
         rnd = random.Random(f"{focus}/{k}")
+        if k >= base and focus == "C10":
+            cases.append(many_x(rnd))
+            continue
+        if k >= base and focus == "C11":
+            cases.append(Gen(rnd, rnd.choice(["C06", "C14", "C05"]), exotic=rnd.random() < 0.5, c_anywhere=True).scenario())
+            continue
         if k >= base:
             cases.append(Gen(rnd, focus, exotic=True).scenario())
             continue
@@ -500,6 +530,39 @@ def changed_rule(scenario, o):
             if prev is not None and flag and k not in header:
                 bad.append(f"input {k} is omitted from the header but flagged as changed ({c})")
         prev = v
+    return bad
+
+
+def driver_rules(scenario, calls, rows):
+    """Oracles taken from the statements alone (nothing recorded), evaluated on the whole run, also behind error items.
+    C13: every error the driver returned from a call reaches the caller as a driver-error item, in call order, carrying that
+    very value (the replay driver's error value is the number of the failing call).
+    C02: every driver call is accounted for by the constructor, a yielded row or an error item of the row whose call was made:
+    calls = 1 + rows + driver-error items + rows that became an error after their call (answer layout, virtual signal)."""
+    if not isinstance(calls, list) or not isinstance(rows, list) or not calls:
+        return []
+    head = scenario.split("\nprogram\n", 1)[0].split("\n")
+    failat, failfrom = [], None
+    for l in head:
+        w = l.split()
+        if w[:2] == ["driver", "failat"]:
+            failat = [int(x) for x in w[2:]]
+        if w[:2] == ["driver", "failfrom"]:
+            failfrom = int(w[2])
+    bad = []
+    rows = [r_ for r_ in rows if r_ != "..."]
+    made = len(calls)
+    failing = [k for k in range(2, made + 1) if k in failat or (failfrom is not None and k >= failfrom)]
+    seen = [int(m.group(1)) for r_ in rows for m in [re.match(r"ERR Driver\(DrvErr\((\d+)\)\)", r_)] if m]
+    if 1 in failat or failfrom == 1:
+        return []
+    if seen != failing:
+        bad.append(f"the driver returned an error from calls {failing} but the caller was given the driver errors {seen} (calls made: {made})")
+    if not any(l.startswith("declare") for l in scenario.split("\nprogram\n", 1)[-1].replace("\r", "").split("\n")):
+        ok_rows = sum(1 for r_ in rows if not r_.startswith("ERR"))
+        after_call = sum(1 for r_ in rows if r_.startswith("ERR") and ("Driver(" in r_ or "WrongOutput" in r_ or "WrongNumberOfOutputs" in r_ or "MissingOutputs" in r_))
+        if made != 1 + ok_rows + after_call:
+            bad.append(f"{made} driver calls for {ok_rows} rows and {after_call} error items that follow a call (constructor included)")
     return bad
 
 
@@ -567,6 +630,7 @@ def run_cases(cases, tag):
                     raw = json.loads(l)
                     d = norm(raw)
                     d["_raw_calls"] = raw.get("calls")
+                    d["_raw_rows"] = raw.get("rows")
                     outs.append(d)
                 except Exception:
                     outs.append(dict(stage="?", outcome="garbled"))
@@ -593,6 +657,10 @@ def record():
         for c, a, b in zip(cases, res["release"], res["debug"]):
             ra = a.pop("_raw_calls", None)
             b.pop("_raw_calls", None)
+            rr = a.pop("_raw_rows", None)
+            b.pop("_raw_rows", None)
+            if driver_rules(c, ra, rr):
+                print("  the tree being recorded breaks a driver rule:", f, driver_rules(c, ra, rr)[:1])
             if changed_rule(c, dict(calls=ra)):
                 print("  the tree being recorded breaks the `changed` rule:", f, changed_rule(c, dict(calls=ra))[:1])
             # a case on which the two build profiles disagree, or that panics / hangs, is no reference for anything
@@ -677,7 +745,9 @@ def check(focus):
         for prof in ("release", "debug"):
             o = res[prof][i] if i < len(res[prof]) else dict(outcome="missing")
             raw_calls = o.pop("_raw_calls", None)
+            raw_rows = o.pop("_raw_rows", None)
             bad += [f"{prof}: {b}" for b in changed_rule(c["scenario"], dict(calls=raw_calls))[:2]]
+            bad += [f"{prof}: {b}" for b in driver_rules(c["scenario"], raw_calls, raw_rows)[:2]]
             o, ex = cut(o), cut(dict(c["expect"]))
             if focus in VERDICT_ONLY:
                 o = {k: o.get(k) for k in VERDICT_ONLY[focus]}
